@@ -6,14 +6,18 @@ SPEC = {
     "id": "C06",
     "coq_targets": ["theories/PathMgr/Props_C06.vo", "theories/PathMgr/Findings.vo", "theories/PathMgr/Cases.vo"],
     "props": "theories/PathMgr/Props_C06.v",
-    "harness": [{"bin": "h_pathmgr", "n": {"quick": 330, "thorough": 6000}, "args": ["--prop", "C06"], "known_bits": KNOWN},
+    "harness": [{"bin": "h_pathmgr", "n": {"quick": 420, "thorough": 6000}, "args": ["--prop", "C06"], "known_bits": KNOWN},
                 # the hand-out defect was visible only without debug assertions: same histories, release profile
-                {"bin": "h_pathmgr", "n": {"quick": 90, "thorough": 2000}, "args": ["--prop", "C06"], "release": True, "known_bits": KNOWN}],
+                # (thorough tier only: a release rebuild of scion-stack takes minutes whenever /repo changes; in the
+                # debug profile the same defect shows as a caught panic, outcome 99)
+                {"bin": "h_pathmgr", "n": {"quick": 90, "thorough": 2000}, "args": ["--prop", "C06"], "release": True, "known_bits": KNOWN,
+                 "tiers": ["thorough"]}],
     "rule": "event histories on one real PathSet + PathIssueManager (verif-hooks probe), debug and release profile: directed histories (expiry between two ticks under failing lookups / under lookups returning the same path, refresh with an already expired path, one issue re-reported outside the dedup window, distinct issues beyond the cache size, max_cached 0), enumerated and random histories with clock deltas {0,1,d-1,d,d+1} for d in thresholds, expiries and backoff steps, configurations from the validator's boundary (rejected ones included); oracles on the implementation's observations: handed-out path not expired, cache size, issue map and FIFO size, refetch window, no panic, and on timely stretches (send not later than the next due tick) no 'no path' answer while a cached path is valid",
     "assumptions": ["hand-out instants before 2^32 s (the code truncates now to u32 seconds)",
                     "backoff parameters non-negative and finite (Duration::from_secs_f32 panics otherwise; not checked by the validator)",
                     "durations small enough that SystemTime + Duration does not overflow",
-                    "no 64-bit hash collision between issue ids"],
+                    "no 64-bit hash collision between issue ids",
+                    "issue memory / no-panic theorems: positive deduplication window (in the correspondence zero-window configurations are run with distinct report timestamps per issue)"],
     "trusted_extra": ["verif-hooks probe (crates/scion-stack/src/path/manager/verif_hooks.rs): thin adapter calling the real maintain / handle_issue_rx / report_path_issue / cached_path / path"],
 }
 def main(argv): pathmgr_common.main(SPEC, argv)
